@@ -11,9 +11,16 @@
 package main
 
 import (
+	"bytes"
 	"context"
 	"fmt"
 	"math/rand"
+	"net"
+	"net/http"
+	"os"
+	"os/exec"
+	"path/filepath"
+	"strings"
 	"sync"
 	"time"
 
@@ -305,6 +312,116 @@ func gen(rng *rand.Rand) Case {
 	return c
 }
 
+// ---------------------------------------------------------------- process layer
+
+// processDiscardSetting: the real binary reads a config file in which discard_overflow is written
+// as true, as false, through ${ENV:…} placeholders resolving to either, or not at all (the
+// default is on). One instance, 10 rps for 3 s, and a target whose first answer takes 2.6 s:
+// with the setting on, the tokens that are ≥ 2 s late must be written as discarded lines (net
+// code 777) and only then; with it off, all 30 requests must be fired and none discarded.
+func processDiscardSetting(res *vkit.Result, bin string) {
+	type variant struct {
+		Name, Line string
+		Env        []string
+		On         bool
+	}
+	variants := []variant{
+		{"literal-true", "discard_overflow: true", nil, true},
+		{"literal-false", "discard_overflow: false", nil, false},
+		{"absent", "", nil, true},
+		{"env-true", "discard_overflow: ${ENV:VERIF_C04_DISCARD}", []string{"VERIF_C04_DISCARD=true"}, true},
+		{"env-false", "discard_overflow: ${ENV:VERIF_C04_DISCARD}", []string{"VERIF_C04_DISCARD=false"}, false},
+		{"short-env-false", "discard_overflow: ${VERIF_C04_DISCARD}", []string{"VERIF_C04_DISCARD=false"}, false},
+	}
+	var wg sync.WaitGroup
+	for _, v := range variants {
+		wg.Add(1)
+		go func(v variant) {
+			defer wg.Done()
+			c := map[string]any{"layer": "process", "discard_overflow_written_as": v.Line, "env": v.Env}
+			key := "C04/process/" + v.Name
+			var first sync.Once
+			srv := &http.Server{Handler: http.HandlerFunc(func(w http.ResponseWriter, r *http.Request) {
+				first.Do(func() { time.Sleep(2600 * time.Millisecond) })
+				_, _ = w.Write([]byte("ok"))
+			})}
+			ln, err := net.Listen("tcp", "127.0.0.1:0")
+			if err != nil {
+				res.Inconclusive(true, "listen: %v", err)
+				return
+			}
+			go func() { _ = srv.Serve(ln) }()
+			defer srv.Close()
+			dir, err := os.MkdirTemp(vkit.TmpDir(), "c04proc")
+			if err != nil {
+				res.Inconclusive(true, "tmp: %v", err)
+				return
+			}
+			defer os.RemoveAll(dir)
+			out, ammo, cf := filepath.Join(dir, "phout.log"), filepath.Join(dir, "ammo.uri"), filepath.Join(dir, "load.yaml")
+			_ = os.WriteFile(ammo, []byte("/a taga\n"), 0o644)
+			conf := fmt.Sprintf(`pools:
+  - id: "p"
+    gun: {type: "http", target: "%s"}
+    ammo: {type: "uri", file: "%s"}
+    result: {type: "phout", destination: "%s"}
+    rps: {type: "const", ops: 10, duration: "3s"}
+    startup: {type: "once", times: 1}
+    %s
+log: {level: "error"}
+`, ln.Addr().String(), ammo, out, v.Line)
+			_ = os.WriteFile(cf, []byte(conf), 0o644)
+			cmd := exec.Command(bin, cf)
+			cmd.Dir = dir
+			cmd.Env = append(append(os.Environ(), "GORACE="), v.Env...)
+			var outb bytes.Buffer
+			cmd.Stdout, cmd.Stderr = &outb, &outb
+			if err := cmd.Start(); err != nil {
+				res.Inconclusive(true, "cannot start pandora: %v", err)
+				return
+			}
+			exited := make(chan error, 1)
+			go func() { exited <- cmd.Wait() }()
+			select {
+			case err := <-exited:
+				if err != nil {
+					res.Inconclusive(true, "pandora (%s) failed: %v: %.600s", v.Name, err, outb.String())
+					return
+				}
+			case <-time.After(90 * time.Second):
+				_ = cmd.Process.Kill()
+				res.Inconclusive(false, "pandora (%s) did not end within 90 s", v.Name)
+				return
+			}
+			data, _ := os.ReadFile(out)
+			fired, discarded := 0, 0
+			for _, l := range strings.Split(strings.TrimSpace(string(data)), "\n") {
+				cols := strings.Split(l, "\t")
+				if len(cols) != 12 {
+					continue
+				}
+				if cols[10] == "777" {
+					discarded++
+				} else {
+					fired++
+				}
+			}
+			switch {
+			case fired+discarded != 30:
+				res.Violate(key+"/count", fmt.Sprintf("30 tokens, %d fired + %d discarded lines", fired, discarded), c)
+			case v.On && discarded == 0:
+				res.Violate(key+"/not-discarded", fmt.Sprintf("discard_overflow is on and the first answer took 2.6 s, yet all %d requests were fired and none discarded", fired), c)
+			case !v.On && discarded > 0:
+				res.Violate(key+"/discarded", fmt.Sprintf("discard_overflow is off, yet %d of 30 tokens were written as discarded (net code 777)", discarded), c)
+			}
+			res.Count("process_runs", 1)
+			res.Count("process_discarded_lines", int64(discarded))
+			res.Eval(vkit.JSON(c), true)
+		}(v)
+	}
+	wg.Wait()
+}
+
 func main() {
 	res := vkit.NewResult("mock pools in real time: 1–4 instances, const/line 5–50 rps for 1–6 s, scripted response-time histories (all fast; one 2.1–3.6 s stall; a stall followed by tokens lying in the future; sustained slow target; slower than the interval but inside the 2 s window; profile started 1.5–3.5 s in the past), discard_overflow on/off; distinct = distinct case descriptions; non-trivial = the case produced late-but-fired or discarded tokens")
 	rng := vkit.Rand("c04")
@@ -326,6 +443,11 @@ func main() {
 		}(c)
 	}
 	wg.Wait()
+	if bin := os.Getenv("VERIF_PANDORA_BIN"); bin == "" {
+		res.Inconclusive(true, "no pandora binary (VERIF_PANDORA_BIN)")
+	} else {
+		processDiscardSetting(res, bin)
+	}
 	if res.Counter("fired_late_lt_2s") == 0 || res.Counter("discarded") == 0 {
 		res.Inconclusive(true, "the run did not observe both late-but-fired and discarded tokens")
 	}
